@@ -36,6 +36,9 @@ func catalogue(form string) []corruption {
 	samC := func() {
 		out = append(out, corruption{"empty_file", "sam", "", ""})
 		for _, p := range pos {
+			out = append(out, corruption{"sam_past_end", "sam", p, ""}) // a record whose CIGAR runs past the last reference base
+		}
+		for _, p := range pos {
 			out = append(out, corruption{"sam_missing_fields", "sam", p, ""})
 		}
 	}
@@ -79,6 +82,7 @@ func catalogue(form string) []corruption {
 		fasta("target")
 		out = append(out, corruption{"width_mismatch", "target", "", ""}, corruption{"width_mismatch", "query", "", ""}, corruption{"width_mismatch", "target", "narrow", ""}, corruption{"width_mismatch", "query", "narrow", ""})
 	case "topranking":
+		out = append(out, corruption{"size_dist_push", "", "", ""})
 		fasta("query")
 		fasta("target")
 		out = append(out, corruption{"empty_file", "ref", "", ""}, corruption{"two_records", "ref", "", ""}, corruption{"ref_width", "ref", "", ""}, corruption{"no_size_or_dist", "", "", ""})
@@ -414,6 +418,48 @@ func applyCorruption(c *Case, k corruption, r *Rand) *Case {
 		}
 		out.Opts.End = r.Range(1, L-1)
 		out.Opts.Start = r.Range(out.Opts.End+1, L)
+	case "size_dist_push":
+		// documented as not combinable: --size* together with --dist* when --dist-push is given
+		o := &out.Opts
+		o.DistPush = r.Range(1, 3)
+		if r.Bool() {
+			o.SizeTotal, o.SizeUp, o.SizeDown, o.SizeSide, o.SizeSame = r.Range(1, 8), 0, 0, 0, 0
+		} else {
+			o.SizeTotal, o.SizeUp, o.SizeDown, o.SizeSide, o.SizeSame = 0, r.Range(1, 3), r.Range(0, 3), r.Range(0, 3), r.Range(0, 3)
+		}
+		if r.Bool() {
+			o.DistAll, o.DistUp, o.DistDown, o.DistSide = r.Range(1, 4), 0, 0, 0
+		} else {
+			o.DistAll, o.DistUp, o.DistDown, o.DistSide = 0, r.Range(1, 3), r.Range(0, 3), r.Range(0, 3)
+		}
+	case "sam_past_end":
+		sc := parseSamText(text)
+		L := len(sc.RefSeq)
+		var idx []int
+		for i, rec := range sc.Recs {
+			if rec.Flag&(4|256) == 0 && len(rec.Cigar) > 0 {
+				idx = append(idx, i)
+			}
+		}
+		if len(idx) < 3 || L == 0 || c.Cmd == "indels" {
+			return nil
+		}
+		i := idx[pickIdx(len(idx), k.Pos)]
+		span := 0
+		for _, op := range sc.Recs[i].Cigar {
+			switch op.Op {
+			case 'M', '=', 'X', 'D', 'N':
+				span += op.Len
+			}
+		}
+		if span == 0 {
+			return nil
+		}
+		sc.Recs[i].Pos = L - span + 1 + r.Range(1, 3)
+		if sc.Recs[i].Pos < 1 {
+			return nil
+		}
+		out.Files[k.File] = sc.Text()
 	case "anno_suffix_unknown":
 		out.Opts.AnnoSuffix = r.Pick("gbk", "txt", "", "gff3")
 	case "no_size_or_dist":
